@@ -3,7 +3,7 @@ from __future__ import annotations
 
 from . import e2_formula as F
 from .core import Unsupported
-from .c16_interp import Interp, NONE, SIGS, is_const, mem, op, show, free_syms, basic_index
+from .c16_interp import Interp, NONE, SIGS, is_const, mem, op, show, free_syms, basic_index, written_args, unfollowed_writes
 from .c16_ext import Agg, params, fact_of, content_root, raise_anchor, good_paths
 
 EVT = "pyyeti/cla/dr_event.py"
@@ -238,6 +238,9 @@ class Conv:
         if k == "attr":
             if t[2] in ("T", "real"):
                 return self(t[1])
+            if t[1][0] == "ref":
+                # a member the path never set on an object it created: set by something that was not followed
+                raise Unsupported(f"member `{t[2]}` of an object created on the path is not set by it")
             return F.sym(show(P.norm(t)))
         if k == "idx":
             if is_const(t[2]) and isinstance(t[2][1], str):
@@ -285,6 +288,8 @@ class Conv:
 def _region(ix, nrb, rfm, save):
     while ix[0] == "tup" and len(ix) >= 3 and ix[-1] in (("slice", NONE, NONE, NONE), ("c", Ellipsis)):
         ix = ix[1] if len(ix) == 3 else ix[:-1]         # X[rows, :] / X[rows, ...] address the rows
+    if ix in (("slice", NONE, NONE, NONE), ("c", Ellipsis), ("slice", ("c", 0), NONE, NONE)):
+        return ":"
     if ix == ("slice", NONE, ("s", nrb), NONE) or ix == ("slice", ("c", 0), ("s", nrb), NONE):
         return ":nrb"
     if ix == ("slice", ("s", nrb), NONE, NONE):
@@ -296,6 +301,57 @@ def _region(ix, nrb, rfm, save):
     return show(ix)
 
 
+LEAVES = ("RB", "EL", "RF")
+LEAF_TEXT = {"RB": "rigid-body rows [:nrb]", "EL": "elastic rows", "RF": "residual-flexibility rows [rfmodes]"}
+COVER = {":": LEAVES, ":nrb": ("RB",), "nrb:": ("EL", "RF"), "elastic": ("EL",), "rfmodes": ("RF",)}
+
+
+class LeafConv(Conv):
+    """scalar image of a value on one row class (leaf) of the solution: a read of a tracked part of the returned solution is what the stores
+    made so far left on that row class, so `x[r] *= f`, `x[r] = x[r] * f`, np.multiply(x[r], f, out=x[r]), a fill followed by partial
+    overwrites, and partial stores in any order are the same thing"""
+
+    def __init__(self, P, state, leaf, names, kname=None, fresh=None):
+        super().__init__(P, kname=kname)
+        self.state, self.leaf, self.names, self.fresh = state, leaf, names, fresh or {}
+        self.garbage = False
+
+    def __call__(self, t):
+        if t[0] in ("idx", "ld") and t[1] in self.state:
+            nrb, rfm, save = self.names
+            cov = COVER.get(_region(self.P.norm(t[2]), nrb, rfm, save))
+            if cov is None or self.leaf not in cov:
+                raise Unsupported(f"rows `{show(self.P.norm(t[2]))}` of a part of the solution read into the {LEAF_TEXT[self.leaf]}")
+            return self._cur(t[1])
+        if t[0] == "ref" and t in self.state:
+            return self._cur(t)
+        return super().__call__(t)
+
+    def _cur(self, f):
+        v = self.state[f][self.leaf]
+        if self.fresh.get(f, {}).get(self.leaf) == "uninit":
+            self.garbage = True         # np.empty memory is read: whatever is computed from it (also `* 0`: NaN, inf) is not a documented value
+        if v is None:
+            raise Unsupported("content not known (a call that was not followed may have written into it)")
+        return v
+
+
+def _initial(P, cv, ref):
+    """scalar image of a freshly created array: zeros / full are their fill value, empty is a value of its own (nothing equals it)"""
+    o = P.obj(ref)
+    og = o.origin if o is not None else None
+    if og is not None and og[0] == "call":
+        if og[1] in ("np.zeros", "np.zeros_like"):
+            return F.const(0), "filled"
+        if og[1] in ("np.ones", "np.ones_like"):
+            return F.const(1), "filled"
+        if og[1] in ("np.full", "np.full_like") and len(og[2]) >= 2:
+            return cv(og[2][1]), "filled"
+        if og[1] in ("np.empty", "np.empty_like"):
+            return F.sym(f"<uninitialised#{ref[1]}>"), "uninit"
+    return cv(ref), "input"
+
+
 def r5_documented_factors(ctx):
     ruf, euf, duf, suf = (F.sym(x) for x in ("ruf", "euf", "duf", "suf"))
     for kdim in (1, 2):
@@ -304,21 +360,24 @@ def r5_documented_factors(ctx):
         GF, AV, K = F.sym(f"{save}['genforce']"), F.sym(f"{save}['avterm']"), F.sym(k)
         tag = f"apply_uf (k {'diagonal' if kdim == 1 else 'full'})"
         want = {
-            ("a", ":nrb"): A_ * ruf * suf, ("v", ":nrb"): V_ * ruf * suf,
-            ("a", "nrb:"): A_ * euf * duf, ("v", "nrb:"): V_ * euf * duf,
-            ("a", "rfmodes"): F.const(0), ("v", "rfmodes"): F.const(0), ("d_dynamic", "rfmodes"): F.const(0),
-            ("d_static", ":nrb"): F.const(0), ("d_dynamic", ":nrb"): F.const(0),
-            ("d_dynamic", "elastic"): -euf * duf * AV / K,
+            ("a", "RB"): A_ * ruf * suf, ("v", "RB"): V_ * ruf * suf,
+            ("a", "EL"): A_ * euf * duf, ("v", "EL"): V_ * euf * duf,
+            ("a", "RF"): F.const(0), ("v", "RF"): F.const(0), ("d_dynamic", "RF"): F.const(0),
+            ("d_static", "RB"): F.const(0), ("d_dynamic", "RB"): F.const(0),
+            ("d_dynamic", "EL"): -euf * duf * AV / K,
+            ("d_static", "EL"): euf * suf * GF / K, ("d_static", "RF"): euf * suf * GF / K,
         }
-        if kdim == 1:
-            want[("d_static", "nrb:")] = euf * suf * GF / K
-        else:
-            want[("d_static", "elastic")] = euf * suf * GF / K
-            want[("d_static", "rfmodes")] = euf * suf * GF / K
         A = Agg(ctx)
         npg = 0
-        seen = set()
+        seen, blind = set(), set()
         t_all = op("eq", ("s", nrb), ("idx", ("attr", ("s", k), "shape"), ("c", 0)))
+
+        k_rows = f"{tag}: every store into a part of the solution addresses all, rigid-body, non-rigid-body, elastic or rf rows"
+        k_every = f"{tag}: every path with elastic modes scales all parts of the solution"
+
+        def name_of(key):
+            return f"{tag}: `{key[0]}` on the {LEAF_TEXT[key[1]]} ends as documented ({want[key]})"
+
         for P in paths:
             ret = P.ret
             o = P.obj(ret)
@@ -328,48 +387,94 @@ def r5_documented_factors(ctx):
             fld = {}
             for nm in ("a", "v", "d_static", "d_dynamic"):
                 fld[P.field(ret, nm)] = nm
-            cv = Conv(P, kname=k)
-            extra = []
-            for e in P.stores():
-                if e.target not in fld:
+            cv0 = Conv(P, kname=k)
+            state, fresh = {}, {}
+            for f, nm in fld.items():
+                try:
+                    v0, un = _initial(P, cv0, f) if P.obj(f) is not None else (cv0(f), "input")
+                except Unsupported:
+                    v0, un = None, False
+                state[f] = {L: v0 for L in LEAVES}
+                # what an untouched row class still holds: "uninit" (np.empty), "input" (a copy of the caller's data), "filled" (zeros / full:
+                # a definite value that may already be the documented one)
+                fresh[f] = {L: (un if v0 is not None else False) for L in LEAVES}
+            # replay, in program order, of everything that writes into the four parts
+            evs = [e for e in P.events if (e.kind == "store" and e.target in fld) or e.kind == "call"]
+            for e in evs:
+                if e.kind == "call":
+                    for f in fld:
+                        if any(isinstance(a, tuple) and a and (a == f or f in mem(P, a)[0]) for a in written_args(e)):
+                            state[f] = {L: None for L in LEAVES}
+                            fresh[f] = {L: False for L in LEAVES}
+                            blind.add(fld[f])
                     continue
-                key = (fld[e.target], _region(P.norm(e.index), nrb, rfm, save))
-                w = want.get(key)
-                if w is None:
-                    extra.append(f"{key[0]}[{key[1]}]")
-                    continue
-                seen.add(key)
-                name = f"{tag}: {key[0]}[{key[1]}] is scaled as documented ({w})"
+                f = e.target
+                reg = _region(P.norm(e.index), nrb, rfm, save)
+                cov = COVER.get(reg)
                 nv = P.norm(e.value)
                 if nv[0] == "call" and nv[1] == "la.lu_solve" and nv[2] and fact_of(P, op("is", nv[2][0], NONE)) is True:
-                    A.req(name, False, e.node, f"`{show(nv)}` is evaluated on the path where `{show(nv[2][0])}` is None")
+                    for L in (cov or LEAVES):
+                        if (fld[f], L) in want:
+                            A.req(name_of((fld[f], L)), False, e.node, f"`{show(nv)}` is evaluated on the path where `{show(nv[2][0])}` is None")
                     continue
-                try:
-                    val = cv(e.value)
-                    ok = val.equals(w)
-                    A.req(name, ok, e.node, None if ok else {"got": repr(val), "documented": repr(w)})
-                except Unsupported as ex:
-                    A.req(name, None, e.node, f"{ex}: {show(P.norm(e.value))}")
-            A.req(f"{tag}: no other part of the solution is scaled", not extra, fn, extra, nontrivial=False)
-            # what every path with elastic modes must scale
-            mine = {(fld[e.target], _region(P.norm(e.index), nrb, rfm, save)) for e in P.stores() if e.target in fld}
-            if fact_of(P, t_all) is False:
-                need = [("a", "nrb:"), ("v", "nrb:")] + ([("d_static", "nrb:"), ("d_dynamic", "elastic")] if kdim == 1 else [])
-                if fact_of(P, ("truth", ("s", nrb))) is True:
-                    need += [("a", ":nrb"), ("v", ":nrb"), ("d_static", ":nrb"), ("d_dynamic", ":nrb")]
-                miss = [f"{a_}[{b_}]" for a_, b_ in need if (a_, b_) not in mine]
-                A.req(f"{tag}: every path with elastic modes scales all parts of the solution", not miss, fn, {"not assigned on a path": miss})
+                A.req(k_rows, True if cov is not None else None, e.node, f"{fld[f]}[{reg}]", nontrivial=False)
+                if cov is None:
+                    # rows the rule cannot place: the content of this part is not known from here on
+                    state[f] = {L: None for L in LEAVES}
+                    fresh[f] = {L: False for L in LEAVES}
+                    continue
+                newv = {}
+                for L in cov:
+                    try:
+                        lc = LeafConv(P, state, L, (nrb, rfm, save), kname=k, fresh=fresh)
+                        newv[L] = lc(e.value)
+                        if lc.garbage:
+                            newv[L] = F.sym(f"<computed from uninitialised memory#{e.seq}>")
+                    except Unsupported as ex:
+                        newv[L] = None
+                        A.req(name_of((fld[f], L)), None, e.node, f"{ex}: {show(nv)}")
+                for L in cov:
+                    state[f][L] = newv[L]
+                    fresh[f][L] = False
+            # which row classes are certainly populated on this path
+            some_el = fact_of(P, t_all) is False
+            pop = {"RB": fact_of(P, ("truth", ("s", nrb))) is True, "EL": some_el and kdim == 1, "RF": False}
+            # ... and which are certainly empty: no rigid-body modes; nothing but rigid-body modes; (full k) the cache holds no factorisation
+            # of the block, which is how _pre_calcs records a block without rows
+            none_lu = {L: fact_of(P, op("is", ("idx", ("s", save), ("c", nm_)), NONE)) is True for L, nm_ in (("EL", "lup_elastic"), ("RF", "lup_rf"))}
+            empty = {"RB": fact_of(P, ("truth", ("s", nrb))) is False, "EL": fact_of(P, t_all) is True or (kdim == 2 and none_lu["EL"]),
+                     "RF": fact_of(P, t_all) is True or (kdim == 2 and none_lu["RF"])}
+            for f, nm in fld.items():
+                for L in LEAVES:
+                    if empty[L]:
+                        continue
+                    key = (nm, L)
+                    val, fr_ = state[f][L], fresh[f][L]
+                    need = pop[L] or (some_el and nm in ("a", "v") and L == "EL")
+                    if fr_ == "filled" and val is not None and (need or val.equals(want[key])):
+                        fr_ = False         # created with a definite value: that is what these rows hold
+                    if need:
+                        A.req(k_every, not fr_, fn, None if not fr_ else f"{nm} on the {LEAF_TEXT[L]} is not assigned on a path on which these rows exist")
+                    if fr_:
+                        continue            # nothing was written there on this path
+                    seen.add(key)
+                    if val is None:
+                        A.req(name_of(key), None, fn, "content not known")
+                        continue
+                    ok = val.equals(want[key])
+                    A.req(name_of(key), ok, fn, None if ok else {"ends as": repr(val), "documented": repr(want[key])})
             pgv = o.fields.get("pg")
             if pgv is not None:
                 npg += 1
                 try:
-                    ok = cv(pgv).equals(PG * suf)
+                    ok = cv0(pgv).equals(PG * suf)
                 except Unsupported:
                     ok = None
                 A.req(f"{tag}: pg is scaled by suf", ok, fn, show(P.norm(pgv)))
-        for key, w in want.items():
+        for key in want:
             if key not in seen:
-                A.req(f"{tag}: {key[0]}[{key[1]}] is scaled as documented ({w})", False, fn, "never assigned; assigned: " + ", ".join(sorted(f"{a_}[{b_}]" for a_, b_ in seen)))
+                A.req(name_of(key), None if key[0] in blind else False, fn,
+                      "never assigned; assigned: " + ", ".join(sorted(f"{a_} ({LEAF_TEXT[b_]})" for a_, b_ in seen)))
         A.req(f"{tag}: pg is scaled by suf", True if npg else None, fn, "no path sets solout.pg")
         A.flush(fn)
     # factor tuple order
@@ -733,6 +838,7 @@ def _has_call(t):
 
 
 def r6_exits_and_typing(ctx):
+    _wrapper(ctx)
     # ---- every exit of apply_uf returns d = d_static + d_dynamic
     for kd, grp in ((1, "diagonal k"), (2, "full k")):
         fn, I, paths, names = _au_interp(ctx, kd, None)
@@ -747,11 +853,23 @@ def r6_exits_and_typing(ctx):
                 continue
             d, ds, dd = o.fields.get("d"), o.fields.get("d_static"), o.fields.get("d_dynamic")
             if d is None or ds is None or dd is None:
-                A.req(key, False, fn, "exit without solout.d / d_static / d_dynamic")
+                A.req(key, False if not unfollowed_writes(P, P.ret) else None, fn, "exit without solout.d / d_static / d_dynamic")
                 continue
             sd = [e for e in P.setattrs(P.ret, "d")]
             last = max([e.seq for e in P.stores() if e.target in (ds, dd)] + [0])
-            ok = d == op("add", ds, dd) and bool(sd) and sd[-1].seq > last
+            when = sd[-1].seq if sd else 0
+            if P.obj(d) is not None and P.obj(d).kind == "arr" and d not in (ds, dd):
+                # d is an array of its own that is filled as a whole (np.add(ds, dd, out=d), d[...] = ds + dd): its content is the last
+                # whole-array store, formed when that store is made
+                whole = [e for e in P.stores() if e.target == d and _region(P.norm(e.index), "", "", "") == ":"]
+                part = [e for e in P.stores() if e.target == d and e not in whole]
+                if whole and not any(e.seq > whole[-1].seq for e in part):
+                    v = whole[-1].value
+                    if v[0] == "op" and v[1] == "add" and len(v) == 4 and ("idx", d, whole[-1].index) in v[2:]:
+                        v = None            # d += ...: not a sum formed from the two parts alone
+                    if v is not None:
+                        d, when = v, whole[-1].seq
+            ok = d == op("add", ds, dd) and bool(sd) and when > last
             if not ok and d != op("add", ds, dd) and _has_call(d) and ds in _parts(d) and dd in _parts(d):
                 ok = None           # both parts go into a construction that is not understood
             A.req(key, ok, sd[-1].node if sd else fn, show(P.norm(d)))
@@ -810,6 +928,60 @@ def r6_exits_and_typing(ctx):
                 _flush_spaces(ctx, A, S, "apply_uf", tag2, fn2)
             A.req(f"{tag2}: index-space rule bound", True if nck else None, fn2, nontrivial=False)
             A.flush(fn2)
+
+
+def _wrapper(ctx):
+    """DR_Event.apply_uf and the module-level apply_uf are two entries to one computation: the method must hand its own sol, m, b, k, nrb,
+    rfmodes over in those roles, each factor tuple of self.UF_reds once, and keep each result under the tuple it was computed with"""
+    fn = ctx.src.func(EVT, "DR_Event.apply_uf")
+    pr = params(fn, True)
+    tfn, tp = _sig(ctx, "apply_uf")
+    roles = ("sol", "m", "b", "k", "nrb", "rfmodes")
+    if len(pr) < 6 or len(tp) < 8:
+        raise_anchor("DR_Event.apply_uf(self, sol, m, b, k, nrb, rfmodes) / apply_uf(sol, uf_reds, m, b, k, nrb, rfmodes, save)")
+    mine = {r: r for r in roles} if all(r in pr for r in roles) else dict(zip(roles, pr[:6]))
+    I = Interp(ctx, EVT, "DR_Event.apply_uf", noinline={"apply_uf"})
+    paths = good_paths(ctx, I)
+    A = Agg(ctx)
+    k_roles = "DR_Event.apply_uf: the module-level apply_uf receives the method's sol, m, b, k, nrb, rfmodes, each in its own role"
+    k_tuple = "DR_Event.apply_uf: each result is computed with an element of self.UF_reds and stored under that element"
+    k_cache = "DR_Event.apply_uf: the cache handed to apply_uf is a dict the method created (or none)"
+    A.req(k_roles, True if paths else None, fn, "no returning path")
+    UF = ("attr", ("s", "self"), "UF_reds")
+    for P in paths:
+        calls = P.calls("apply_uf")
+        if not calls:
+            A.req(k_roles, None if unfollowed_writes(P, P.ret) or P.obj(P.ret) is None else False, fn, "apply_uf is not called")
+            continue
+        for c in calls:
+            kw = dict(c.kws)
+            if "**" in kw or any(a[0] == "star" for a in c.args):
+                A.req(k_roles, None, c.node, "arguments passed through * / ** that could not be spread")
+                continue
+            got = {}
+            for i, nm in enumerate(tp[:8]):
+                got[nm] = c.args[i] if i < len(c.args) else kw.get(nm)
+            bad = [f"{tp[i]} <- {show(P.norm(got[tp[i]])) if got[tp[i]] is not None else 'missing'}" for i, r in
+                   ((0, "sol"), (2, "m"), (3, "b"), (4, "k"), (5, "nrb"), (6, "rfmodes")) if got[tp[i]] is None or P.norm(got[tp[i]]) != ("s", mine[r])]
+            A.req(k_roles, not bad, c.node, bad)
+            t = got[tp[1]]
+            tn = P.norm(t) if t is not None else None
+            is_elem = tn is not None and tn[0] == "elem" and (tn[1] == UF or UF in _parts(tn[1]))
+            sts = [e for e in P.stores() if e.target == P.ret and e.value == c.value]
+            if t is None or not is_elem:
+                A.req(k_tuple, False if (tn is not None and free_syms(tn) and "self" not in free_syms(tn)) or t is None else None, c.node,
+                      show(tn) if tn is not None else "no factor tuple")
+            elif not sts:
+                A.req(k_tuple, None if (P.obj(P.ret) is None or unfollowed_writes(P, P.ret)) else False, c.node, "the result is not stored in the returned dict")
+            else:
+                A.req(k_tuple, all(P.norm(e.index) == tn for e in sts), sts[0].node, [show(P.norm(e.index)) for e in sts])
+            sv = got[tp[7]]
+            if sv is not None and sv != NONE:
+                o = P.obj(sv)
+                A.req(k_cache, (o is not None and o.kind == "dict") if (o is not None or sv[0] in ("s", "attr", "idx")) else None, c.node, show(P.norm(sv)))
+            else:
+                A.req(k_cache, True, c.node)
+    A.flush(fn)
 
 
 def _flush_spaces(ctx, A, S, q, tag, fn):
